@@ -8,6 +8,7 @@
 package quiesce
 
 import (
+	"sync/atomic"
 	"os"
 	"regexp"
 	"runtime"
@@ -131,6 +132,21 @@ func selfID() int {
 // Rounds is the number of identical successive dumps Quiet demands.
 var Rounds = 3
 
+// PersistRounds is the number of further 10 ms rounds a picture with goroutines
+// parked on the kernel ("IO wait") has to persist (see Quiet).
+var PersistRounds = 12
+
+// PersistEntered counts how often Quiet went into those rounds (measurement).
+var PersistEntered int64
+
+func init() {
+	if v := os.Getenv("VERIF_PERSIST_ROUNDS"); v != "" {
+		if n, err := strconv.Atoi(v); err == nil && n > 0 {
+			PersistRounds = n
+		}
+	}
+}
+
 // Quiet reports whether every goroutine other than the caller is parked, in
 // Rounds successive dumps with identical (id, state, top frame) sets. It
 // returns the last dump.
@@ -167,7 +183,8 @@ func Quiet() (bool, []G) {
 			// arrived) leaves no trace in a dump. An idle Go process polls the
 			// network at least every 10 ms (sysmon): the picture has to stay
 			// the same, with no unread bytes anywhere, for a dozen such periods.
-			for r := 0; r < 12; r++ {
+			atomic.AddInt64(&PersistEntered, 1)
+			for r := 0; r < PersistRounds; r++ {
 				if socketsPending() {
 					return false, a
 				}
